@@ -194,7 +194,18 @@ struct Ctx {
     if (!D) return "";
     llvm::SmallString<128> buf;
     if (index::generateUSRForDecl(D, buf)) return "";
-    return std::string(buf.str());
+    std::string u(buf.str());
+    // closures inside instantiated templates get USRs without a position: two
+    // lambdas with the same signature in one function would collide
+    const DeclContext* DC = dyn_cast<DeclContext>(D) ? cast<DeclContext>(D) : D->getDeclContext();
+    const CXXRecordDecl* RD = nullptr;
+    if (auto* M = dyn_cast<CXXMethodDecl>(D)) RD = M->getParent();
+    else if (auto* R = dyn_cast<CXXRecordDecl>(D)) RD = R;
+    (void)DC;
+    if (RD && RD->isLambda()) {
+      u += "#L" + std::to_string(lineOf(RD->getLocation())) + ":" + std::to_string(colOf(RD->getLocation()));
+    }
+    return u;
   }
   std::string qname(const NamedDecl* D) const {
     if (!D) return "";
